@@ -80,7 +80,7 @@ func harnessFiles(native bool) map[string]string {
 			if native {
 				continue
 			}
-		case n == "rt_native.go":
+		case strings.HasPrefix(n, "rt_native"):
 			if !native {
 				continue
 			}
@@ -161,7 +161,9 @@ func cmdRun(args []string) int {
 	trace := fs.Bool("trace", false, "trace instructions")
 	maxPaths := fs.Int("max-paths", 0, "path budget")
 	native := fs.Bool("native", true, "validate witnesses natively")
+	sched := fs.Bool("sched", false, "native replay follows the recorded schedule (-tags verif)")
 	fs.Parse(args)
+	schedReplay = *sched
 	rest := fs.Args()
 	if len(rest) < 1 {
 		usage()
@@ -246,10 +248,11 @@ type confirmedViolation struct {
 }
 
 type replayReport struct {
-	validated   int
-	mismatches  []string
-	confirmed   []confirmedViolation
-	unconfirmed []string
+	validated    int
+	mismatches   []string
+	confirmed    []confirmedViolation
+	unconfirmed  []string
+	unconfirmedV []confirmedViolation
 	wall        time.Duration
 }
 
@@ -300,6 +303,10 @@ func allHarnessNames(eng *symx.Engine) []string {
 
 var harnessNamesCache []string
 
+// schedReplay: the property's harnesses start goroutines; native replays run
+// with -tags verif and follow the recorded schedule.
+var schedReplay bool
+
 func runGoTest(dir string, in, out string, race bool) (string, error) {
 	ov, err := writeOverlay(dir, harnessNamesCache)
 	if err != nil {
@@ -310,12 +317,18 @@ func runGoTest(dir string, in, out string, race bool) (string, error) {
 	if race {
 		env = append(env, "VERIF_RACE=1", "CGO_ENABLED=1")
 		args = append(args, "-race")
+	} else if schedReplay {
+		// schedule replay through the library's lock-point hook (build tag verif)
+		env = append(env, "VERIF_SCHED=1")
+		args = append(args, "-tags", "verif")
 	}
 	args = append(args, ".")
 	return runCmd(repoDir, env, "go", args...)
 }
 
 // runBatch replays a batch of witnesses natively (one go test process).
+var lastRaceOutput string
+
 func runBatch(dir, tag string, cases []replayCase, race bool) ([]replayResult, error) {
 	in := filepath.Join(dir, tag+"_in.json")
 	out := filepath.Join(dir, tag+"_out.json")
@@ -324,6 +337,9 @@ func runBatch(dir, tag string, cases []replayCase, race bool) ([]replayResult, e
 		return nil, err
 	}
 	outp, err := runGoTest(dir, in, out, race)
+	if race {
+		lastRaceOutput = outp
+	}
 	ob, rerr := os.ReadFile(out)
 	if rerr != nil {
 		return nil, fmt.Errorf("native replay run failed: %v\n%s", err, outp)
@@ -372,7 +388,7 @@ func nativeReplay(results []*symx.CaseResult) (*replayReport, error) {
 			if v.Kind == "panic" {
 				oc = "panic"
 			}
-			rc.Witnesses = append(rc.Witnesses, symx.Witness{Vector: v.Vector, Outcome: oc})
+			rc.Witnesses = append(rc.Witnesses, symx.Witness{Vector: v.Vector, Outcome: oc, Sched: v.Sched})
 			rr = append(rr, ref{res: r, viol: v})
 		}
 		if len(rc.Witnesses) > 0 {
@@ -393,6 +409,9 @@ func nativeReplay(results []*symx.CaseResult) (*replayReport, error) {
 		// the race detector reports each distinct pair of stacks once per
 		// process: a site confirmed for one witness counts for the others
 		siteConfirmed := map[string]bool{}
+		for _, pair := range raceSitePairs(lastRaceOutput) {
+			siteConfirmed[pair] = true
+		}
 		for _, r := range rs {
 			if r.Outcome == "race" || r.Outcome == "panic" || strings.HasPrefix(r.Outcome, "assert:") {
 				rf := raceRefs[r.Case][r.Witness]
@@ -404,10 +423,12 @@ func nativeReplay(results []*symx.CaseResult) (*replayReport, error) {
 			rf := raceRefs[r.Case][r.Witness]
 			w := raceCases[r.Case].Witnesses[r.Witness]
 			if r.Outcome == "race" || r.Outcome == "panic" || strings.HasPrefix(r.Outcome, "assert:") ||
-				(r.Outcome == "ok" && (siteConfirmed[rf.viol.ID] || siteConfirmed[rf.res.Spec.Harness+"/"+rf.viol.Case])) {
+				(r.Outcome == "ok" && (siteConfirmed[rf.viol.ID] || siteConfirmed[rf.res.Spec.Harness+"/"+rf.viol.Case] || siteConfirmed[normRaceID(rf.viol.ID)])) {
 				rep.confirmed = append(rep.confirmed, confirmedViolation{Spec: rf.res.Spec, V: rf.viol, Native: "race detector report", Detail: r.Detail})
 			} else {
-				rep.unconfirmed = append(rep.unconfirmed, fmt.Sprintf("%s %s/%s: engine saw a write during a query, the race detector run says %s (vector %v)", rf.res.Spec, rf.viol.Case, rf.viol.ID, r.Outcome, w.Vector))
+				msg := fmt.Sprintf("%s %s/%s: engine reports a write/race, the race detector run says %s (vector %v)", rf.res.Spec, rf.viol.Case, rf.viol.ID, r.Outcome, w.Vector)
+				rep.unconfirmed = append(rep.unconfirmed, msg)
+				rep.unconfirmedV = append(rep.unconfirmedV, confirmedViolation{Spec: rf.res.Spec, V: rf.viol, Native: r.Outcome, Detail: msg})
 			}
 		}
 	}
@@ -424,7 +445,7 @@ func nativeReplay(results []*symx.CaseResult) (*replayReport, error) {
 		w := cases[r.Case].Witnesses[r.Witness]
 		spec := rf.res.Spec
 		if rf.viol != nil {
-			ok := r.Outcome == w.Outcome
+			ok := r.Outcome == w.Outcome || (strings.HasSuffix(rf.viol.ID, ":deadlock") && r.Outcome == "timeout")
 			if ok {
 				rep.confirmed = append(rep.confirmed, confirmedViolation{Spec: spec, V: rf.viol, Native: r.Outcome, Detail: r.Detail})
 			} else if r.Outcome == "panic" || strings.HasPrefix(r.Outcome, "assert:") {
@@ -437,7 +458,9 @@ func nativeReplay(results []*symx.CaseResult) (*replayReport, error) {
 				}
 				rep.confirmed = append(rep.confirmed, confirmedViolation{Spec: spec, V: &v, Native: r.Outcome, Detail: r.Detail})
 			} else {
-				rep.unconfirmed = append(rep.unconfirmed, fmt.Sprintf("%s %s/%s: engine says %s, native run says %s (vector %v)", spec, rf.viol.Case, rf.viol.ID, w.Outcome, r.Outcome, w.Vector))
+				msg := fmt.Sprintf("%s %s/%s: engine says %s, native run says %s (vector %v) %s", spec, rf.viol.Case, rf.viol.ID, w.Outcome, r.Outcome, w.Vector, r.Detail)
+				rep.unconfirmed = append(rep.unconfirmed, msg)
+				rep.unconfirmedV = append(rep.unconfirmedV, confirmedViolation{Spec: spec, V: rf.viol, Native: r.Outcome, Detail: msg})
 			}
 			continue
 		}
@@ -491,6 +514,7 @@ func sameObs(a, b []string) bool {
 // replay of one stored counterexample
 
 type replayFile struct {
+	Sched    []int    `json:"sched,omitempty"`
 	Property string   `json:"property"`
 	Key      string   `json:"key"`
 	Harness  string   `json:"harness"`
@@ -519,7 +543,8 @@ func cmdReplay(args []string) int {
 	defer cleanup()
 	in := filepath.Join(dir, "in.json")
 	out := filepath.Join(dir, "out.json")
-	cases := []replayCase{{Harness: rf.Harness, Params: rf.Params, Witnesses: []symx.Witness{{Vector: rf.Vector, Outcome: rf.Expect}}}}
+	schedReplay = rf.Sched != nil
+	cases := []replayCase{{Harness: rf.Harness, Params: rf.Params, Witnesses: []symx.Witness{{Vector: rf.Vector, Outcome: rf.Expect, Sched: rf.Sched}}}}
 	_, _ = in, out
 	rs, err := runBatch(dir, "single", cases, rf.Expect == "race")
 	if err != nil {
@@ -535,4 +560,63 @@ func cmdReplay(args []string) int {
 	}
 	fmt.Printf("VIOLATION property=%s replay=%s\n", rf.Property, args[0])
 	return 1
+}
+
+// normSite reduces a function name (ssa or runtime spelling) to Type.method.
+func normSite(f string) string {
+	f = strings.TrimSuffix(f, "()")
+	f = strings.ReplaceAll(f, "github.com/JesseCoretta/go-stackage.", "")
+	f = strings.NewReplacer("(", "", ")", "", "*", "").Replace(f)
+	if i := strings.Index(f, ".func"); i >= 0 {
+		f = f[:i]
+	}
+	return f
+}
+
+// normRaceID turns "race:w:<site>|r:<site>" into "racepair:<a>|<b>" (sorted,
+// access kinds dropped).
+func normRaceID(id string) string {
+	id = strings.TrimPrefix(id, "race:")
+	parts := strings.Split(id, "|")
+	var sites []string
+	for _, p := range parts {
+		if len(p) > 2 && p[1] == ':' {
+			p = p[2:]
+		}
+		sites = append(sites, normSite(p))
+	}
+	sort.Strings(sites)
+	return "racepair:" + strings.Join(sites, "|")
+}
+
+// raceSitePairs extracts, from `go test -race` output, the pairs of innermost
+// library functions of every reported data race.
+func raceSitePairs(out string) []string {
+	var pairs []string
+	blocks := strings.Split(out, "WARNING: DATA RACE")
+	for _, b := range blocks[1:] {
+		var tops []string
+		lines := strings.Split(b, "\n")
+		expect := false
+		for _, l := range lines {
+			t := strings.TrimSpace(l)
+			if strings.HasPrefix(t, "Write at") || strings.HasPrefix(t, "Read at") || strings.HasPrefix(t, "Previous write at") || strings.HasPrefix(t, "Previous read at") {
+				expect = true
+				continue
+			}
+			if strings.HasPrefix(t, "Goroutine") || strings.HasPrefix(t, "====") {
+				expect = false
+			}
+			if expect && strings.Contains(t, "go-stackage.") && !strings.Contains(t, ".VH_") && !strings.Contains(t, ".vh") {
+				tops = append(tops, normSite(t))
+				expect = false
+			}
+		}
+		if len(tops) >= 2 {
+			p := []string{tops[0], tops[1]}
+			sort.Strings(p)
+			pairs = append(pairs, "racepair:"+p[0]+"|"+p[1])
+		}
+	}
+	return pairs
 }
